@@ -513,3 +513,74 @@ Proof. exact Proofs.FnExportTheta.source_theta_count. Qed.
 Theorem C20_source_theta_count_nan : forall (exp2 : Q -> Q) nb d w l,
   Gen.FnExportTheta.fn_theta_count exp2 None nb d w l = Gen.ExportDefaults.theta_nan_count.
 Proof. exact Proofs.FnExportTheta.source_theta_count_nan. Qed.
+
+(* ---- source tie of export_bed's dispatch on "show" (Gen/FnExportBedShow.v fn_bed_keep, regenerated from the Python source
+   on every run: the statements "if show == 'ploidy': out = out[out['ncopies'] != ploidy] elif show == 'variant': ...
+   out = out[out['ncopies'] != exp_copies]" read per row as "the row stays in out"): per row it is the mask the model's
+   export_bed selects by *)
+From CNV Require Gen.FnExportBedShow Proofs.FnExportBedShow Gen.FnExportOgtMask Proofs.FnExportOgtMask.
+
+Theorem C20_source_bed_show : forall (shw : string) (n k x : Z),
+  Gen.FnExportBedShow.fn_bed_keep shw n k x
+  = match show_of shw with
+    | ShowPloidy => negb (n =? k)
+    | ShowVariant => negb (n =? x)
+    | ShowOther => true
+    end.
+Proof. exact Proofs.FnExportBedShow.source_bed_show. Qed.
+
+Theorem C20_source_bed_show_ploidy_mask : forall (shw : string) (k : Z) (nc : list Z),
+  show_of shw = ShowPloidy ->
+  map (fun n => negb (n =? k)) nc = map (fun n => Gen.FnExportBedShow.fn_bed_keep shw n k 0) nc.
+Proof. exact Proofs.FnExportBedShow.source_bed_show_ploidy_mask. Qed.
+
+(* ---- source tie of export_nexus_ogt's low-weight filter (Gen/FnExportOgtMask.v fn_ogt_keep, regenerated from the Python
+   source on every run: "if min_weight and 'weight' in cnarr: mask_low_weight = cnarr['weight'] < min_weight; cnarr =
+   cnarr[~mask_low_weight]" read per row as "the bin stays in cnarr"): the model's ogt_kept keeps exactly the bins whose
+   generated bit is on *)
+Theorem C20_source_ogt_keep : forall (min_weight : Q) (has_weight : bool) (b : obin),
+  Gen.FnExportOgtMask.fn_ogt_keep min_weight has_weight (o_w b)
+  = if negb (Qeq_bool min_weight 0) && has_weight then negb (ogt_low min_weight b) else true.
+Proof. exact Proofs.FnExportOgtMask.source_ogt_keep. Qed.
+
+Theorem C20_source_ogt_kept : forall (min_weight : Q) (has_weight : bool) (bins : list obin),
+  ogt_kept min_weight has_weight bins
+  = filter (fun b => Gen.FnExportOgtMask.fn_ogt_keep min_weight has_weight (o_w b)) bins.
+Proof. exact Proofs.FnExportOgtMask.source_ogt_kept. Qed.
+
+(* ---- source tie of export_theta's row identifier (Gen/FnExportThetaId.v fn_theta_id, regenerated from the Python source on
+   every run: the statement "table['#ID'] = [f'start_{row.chrm}_{row.start}:end_{row.chrm}_{row.end}' for row in
+   table.itertuples(index=False)]" read per row): it is the model's theta_id, the #ID of every theta_rows row *)
+From CNV Require Gen.FnExportThetaId Proofs.FnExportThetaId.
+
+Theorem C20_source_theta_id : forall chrm lo hi : Z,
+  Gen.FnExportThetaId.fn_theta_id chrm lo hi = theta_id chrm lo hi.
+Proof. exact Proofs.FnExportThetaId.source_theta_id. Qed.
+
+Theorem C20_source_theta_rows : forall (segs : list tseg) (tc nc : list Z),
+  theta_rows segs tc nc
+  = let names := Model.Formats.distinct_names [] (map t_chrom segs) in
+    map3 (fun s t n => let ch := index_from (t_chrom s) names Gen.ExportDefaults.theta_first_chrm in
+                       (Gen.FnExportThetaId.fn_theta_id ch (t_lo s) (t_hi s), ch, t_lo s, t_hi s, t, n)) segs tc nc.
+Proof. exact Proofs.FnExportThetaId.source_theta_rows. Qed.
+
+(* ---- source tie of export_bed's label and ncopies columns per row (Gen/FnExportBedCols.v fn_bed_columns, regenerated from
+   the Python source on every run: "out['label'] = label if label else segments['gene']" and "out['ncopies'] = segments['cn']
+   if 'cn' in segments else absolute_dataframe(...)['absolute'].round().astype('int')"): the label is the model's bed_label,
+   the ncopies cell is the element rule of the model's ncopies_col *)
+From CNV Require Gen.FnExportBedCols Proofs.FnExportBedCols.
+
+Theorem C20_source_bed_label : forall (label : option string) (s : seg) (has_cn : bool) (cn : Z) (a : Q),
+  fst (Gen.FnExportBedCols.fn_bed_columns (Proofs.FnExportBedCols.label_text label) (s_gene s) has_cn cn a)
+  = bed_label label s.
+Proof. exact Proofs.FnExportBedCols.source_bed_label. Qed.
+
+Theorem C20_source_bed_ncopies : forall (l g : string) (has_cn : bool) (cn : Z) (a : Q),
+  snd (Gen.FnExportBedCols.fn_bed_columns l g has_cn cn a) = if has_cn then cn else round_he a.
+Proof. exact Proofs.FnExportBedCols.source_bed_ncopies. Qed.
+
+Theorem C20_source_bed_ncopies_col : forall (has_cn : bool) (cns : list Z) (abs : list Q) (l g : string),
+  (if has_cn then cns else map round_he abs)
+  = if has_cn then map (fun cn => snd (Gen.FnExportBedCols.fn_bed_columns l g true cn 0%Q)) cns
+    else map (fun a => snd (Gen.FnExportBedCols.fn_bed_columns l g false 0 a)) abs.
+Proof. exact Proofs.FnExportBedCols.source_bed_ncopies_col. Qed.
